@@ -468,6 +468,15 @@ class Inliner:
         pre: list[ast.stmt] = []
 
         def go(x: ast.AST, conditional: bool) -> ast.AST:
+            if isinstance(x, ast.ListComp) and not conditional and len(x.generators) == 1 and not x.generators[0].is_async \
+                    and any(isinstance(y, ast.Call) and self._resolve_in(cx, y, stack) is not None for y in ast.walk(x.elt)):
+                # sep.join([helper(i, s) for i, s in enumerate(xs)]): the list is built first, as a loop the helper can be spliced into
+                self.counter += 1
+                acc = f"__r{self.counter}"
+                st_ = ast.copy_location(ast.Assign(targets=[ast.Name(id=acc, ctx=ast.Store())], value=x, type_comment=None), x)
+                ast.fix_missing_locations(st_)
+                pre.extend(self._stmt(cx, st_, stack, depth))
+                return ast.copy_location(ast.Name(id=acc, ctx=ast.Load()), x)
             if isinstance(x, (ast.Lambda, ast.ListComp, ast.SetComp, ast.DictComp, ast.GeneratorExp)):
                 return x
             if isinstance(x, ast.BoolOp):
